@@ -28,7 +28,7 @@ import (
 
 func TestMain(m *testing.M) {
 	stats.Init("C04")
-	stats.Rule("fault scripts of 1-6 events {wait-retry, close carrier, close other, add pipe, block pipe, release, answer, replace, close context} against a REQ socket with retry time R in {0,20,40,80ms}, 1-3 vt pipes, 1-2 contexts. Non-trivial: >=1 fault (close/block/silent retry) while the request is outstanding; distinct by (R, event sequence with outcomes)")
+	stats.Rule("fault scripts of 1-6 events {wait-retry, close carrier, close other, add pipe, block pipe, release, answer, replace, close context} against a REQ socket with retry time R in {0,20,40,80ms}, 1-3 vt pipes, 1-2 contexts. Also: R = 10 s; second context with inherited or own retry time. Non-trivial: >=1 fault (close/block/silent retry) while the request is outstanding; distinct by (R, event sequence with outcomes)")
 	stats.Assume("real time: lower bounds are exact (harness time-stamps before Send/Close, the transport stamps at transmission), upper bounds are 2-3 s 'did not hang' bounds")
 	rc := m.Run()
 	stats.Flush()
